@@ -31,6 +31,7 @@ from pathlib import Path
 
 from src.core.base import BaseLintContext, BaseLintRule
 from src.core.constants import HEADER_SCAN_LINES, IgnoreDirective, Language
+from src.core.linter_utils import path_in_project
 from src.core.types import Severity, Violation
 from src.linter_config.directive_markers import has_bare_file_ignore, has_bare_line_ignore
 from src.linter_config.ignore import get_ignore_parser
@@ -151,7 +152,7 @@ class CollectionPipelineRule(BaseLintRule):  # thailint: ignore[srp,dry]
         if not context.file_path:
             return False
 
-        file_path = Path(context.file_path)
+        file_path = path_in_project(context) or Path(context.file_path)
         return any(self._matches_pattern(file_path, pattern) for pattern in config.ignore)
 
     def _matches_pattern(self, file_path: Path, pattern: str) -> bool:
